@@ -507,6 +507,22 @@ class Evaluator:
                     return r
         return loc
 
+    def _tupleish(self, v, depth=0):
+        """a NamedTuple built on the spot (positional arguments) unpacks like the tuple of
+        its arguments -- also when it is chosen by a test"""
+        if depth > 4 or not isinstance(v, tuple) or not v:
+            return v
+        if v[0] == "call" and v[1][0] == "g" and v[1][1] in self.repo.classes and not v[3] \
+                and not any(a_[0] == "star" for a_ in v[2]) \
+                and self.repo.classes[v[1][1]].own_method("__init__") is None \
+                and any("NamedTuple" in str(b_) for b_ in self.repo.classes[v[1][1]].base_names):
+            return ("tuple", tuple(v[2]))
+        if v[0] == "phi" and len(v) == 4 and v[1][0] != "path":
+            a, b = self._tupleish(v[2], depth + 1), self._tupleish(v[3], depth + 1)
+            if a[0] == "tuple" and b[0] == "tuple":
+                return ("phi", v[1], a, b)
+        return v
+
     def _field_of(self, base, attr):
         """value of field `attr` of a constructor-call term of a plain record class"""
         if not (base[0] == "call" and base[1][0] == "g" and base[1][1] in self.repo.classes):
@@ -532,6 +548,13 @@ class Evaluator:
         # term as tuple unpacking  a, b = f(...)
         if idx[0] == "c" and isinstance(idx[1], int) and not isinstance(idx[1], bool) \
                 and idx[1] >= 0 and base[0] in ("call", "fresh", "proj"):
+            # Record(x, y)[0] of a NamedTuple built on the spot is x
+            if base[0] == "call" and base[1][0] == "g" and base[1][1] in self.repo.classes \
+                    and not base[3] and idx[1] < len(base[2]) \
+                    and not any(a_[0] == "star" for a_ in base[2]) \
+                    and any("NamedTuple" in str(b_) for b_ in
+                            self.repo.classes[base[1][1]].base_names):
+                return base[2][idx[1]]
             return ("proj", base, idx[1])
         # projection of literal containers
         if base[0] in ("tuple", "list") and idx[0] == "c" and isinstance(idx[1], int):
@@ -947,6 +970,7 @@ class Evaluator:
         if isinstance(target, ast.Name):
             self.env.vars[target.id] = value
         elif isinstance(target, (ast.Tuple, ast.List)):
+            value = self._tupleish(value)
             for i, t in enumerate(target.elts):
                 if isinstance(t, ast.Starred):
                     self.assign(t.value, ("proj", value, f"{i}:"), node)
